@@ -309,6 +309,21 @@ def _arm_pool():
         return
     import multiprocessing.pool as mpool
     st.arm_module_functions(mpool, names={'worker', 'Pool', 'ApplyResult', 'ThreadPool', '_PoolCache'})
+    # Pool.__del__ is run by the garbage collector wherever an allocation happens to trigger it - also in the middle of
+    # the simulator's own bookkeeping, where parking the thread deadlocks the run. A finalizer is not a scheduling point of
+    # the program: it runs without switch points.
+    orig_del = mpool.Pool.__del__
+
+    def _del_without_switch_points(self, *a, **k):
+        s = st.SIM
+        if s is not None:
+            s.noyield += 1
+        try:
+            return orig_del(self, *a, **k)
+        finally:
+            if s is not None:
+                s.noyield -= 1
+    mpool.Pool.__del__ = _del_without_switch_points
     _pool_armed = True
 
 
